@@ -255,7 +255,7 @@ Proof.
   destruct (Z.ltb_spec n 0); [lia|].
   destruct (Z.ltb_spec (Z.of_nat (length s) * n) 0); [lia|].
   destruct (Z.eqb_spec n 0) as [->|]; [reflexivity|].
-  destruct (Z.eqb_spec n 1) as [->|]; [cbn; rewrite app_nil_r; reflexivity|].
+  destruct (Z.eqb_spec n 1) as [->|]; [change (Z.to_nat 1) with 1; cbn [repeat_n]; rewrite app_nil_r; reflexivity|].
   destruct (Z.leb_spec two63 (Z.of_nat (length s) * n)); [lia|].
   destruct s; [cbn [is_nil]; rewrite repeat_n_nil; reflexivity | reflexivity].
 Qed.
@@ -347,7 +347,7 @@ Proof.
   intros B V. unfold from_utf8_bytes, to_utf8_bytes.
   replace (existsb _ (map Z.of_N s)) with false.
   - rewrite map_to_of_N, V. reflexivity.
-  - symmetry. induction B as [|b s Hb _ IH]; [reflexivity|]. cbn [map existsb].
+  - symmetry. clear V. induction B as [|b s Hb _ IH]; [reflexivity|]. cbn [map existsb].
     rewrite IH. destruct (Z.ltb_spec (Z.of_N b) 0); [lia|]. destruct (Z.ltb_spec 255 (Z.of_N b)); [lia|].
     reflexivity.
 Qed.
@@ -359,12 +359,10 @@ Proof.
   destruct (existsb _ nums) eqn:E; [discriminate|].
   destruct (valid (map Z.to_N nums)) eqn:V; [|discriminate]. intros [= <-].
   assert (F : Forall (fun n => (0 <= n <= 255)%Z) nums).
-  { apply Forall_forall. intros n Hn.
-    destruct (Z.ltb_spec n 0) as [L|L]; [|destruct (Z.ltb_spec 255 n) as [L'|L']; [|lia]];
-      exfalso; apply (eq_true_false_abs _ (proj2 (existsb_exists _ _) (ex_intro _ n (conj Hn _))) E).
-    Unshelve. all: cbn beta.
-    - destruct (Z.ltb_spec n 0); [reflexivity | lia].
-    - destruct (Z.ltb_spec 255 n); [apply orb_true_r | lia]. }
+  { clear V. induction nums as [|n r IH]; [constructor|]. cbn [existsb] in E.
+    apply orb_false_iff in E as [E1 E2]. apply orb_false_iff in E1 as [E1 E1'].
+    constructor; [|apply IH; exact E2].
+    destruct (Z.ltb_spec n 0); [discriminate|]. destruct (Z.ltb_spec 255 n); [discriminate|]. lia. }
   split; [|split; [exact V|exact F]].
   clear E V. induction F as [|n r Hn _ IH]; [reflexivity|]. cbn. rewrite Z2N.id, IH by lia. reflexivity.
 Qed.
@@ -404,7 +402,7 @@ Qed.
 
 Lemma denote_quote s : denote (quote_items s) = s.
 Proof.
-  induction s as [|b s IH]; [reflexivity|]. cbn. unfold denote, quote_items in IH. rewrite IH.
+  induction s as [|b s IH]; [reflexivity|]. unfold denote, quote_items in *. cbn [map]. rewrite IH.
   destruct (is_meta b); reflexivity.
 Qed.
 
